@@ -38,6 +38,13 @@ pub fn run_replay(prop: &dyn Prop, file: &Value, tier: Tier, st: &mut Stats) -> 
             }
         }
         let sec = file.get("section").and_then(|s| s.as_str()).unwrap_or("");
+        // choices decode differently per tier (size parameters): decode them the way the run that
+        // wrote the file did
+        let tier = match file.get("tier").and_then(|s| s.as_str()) {
+            Some("thorough") => Tier::Thorough,
+            Some("quick") => Tier::Quick,
+            _ => tier,
+        };
         if let Some(h) = file.get("choices_hex").and_then(|s| s.as_str()) {
             if let Ok(b) = hex::decode(h) {
                 return prop.run(sec, &Input::Bytes(&b), tier, st);
